@@ -159,6 +159,21 @@ fn cases(max_n: usize) -> Vec<Case> {
             v.push(Case { bytes: p.clone(), sec, incl_opt: false, prep: 0, tag: format!("sec={} opt=none n={} ptr=1 header=1", sec_name(sec), n) });
         }
     }
+    // SOA data whose names are reached through two and more pointer hops (the first deletion expands them)
+    for strat in [Strategy::Chain, Strategy::Max, Strategy::Latest] {
+        let ba = nm("b.a");
+        let ns1 = nm("ns1.b.a");
+        let mut m = base_msg(&ba, T_A, true);
+        m.an.push(Rec { ttl: 100, ..name_rec(&ba, T_NS, 100, &ns1) });
+        m.an.push(Rec { ttl: 101, ..a_rec(&ba, 101, [1, 1, 1, 1]) });
+        m.ns.push(Rec { ttl: 110, ..soa_rec(&nm("a"), 110, &ns1, &nm("admin.ns1.b.a")) });
+        m.ns.push(Rec { ttl: 111, ..name_rec(&nm("a"), T_NS, 111, &ns1) });
+        m.ar.push(Rec { ttl: 120, ..a_rec(&ns1, 120, [2, 2, 2, 2]) });
+        m.ar.push(Rec { ttl: 121, ..mx_rec(&ba, 121, 5, &nm("admin.ns1.b.a")) });
+        for (sec, n) in [(Sec::Answer, 2usize), (Sec::Authority, 2), (Sec::Additional, 2)] {
+            v.push(Case { bytes: encode(&m, strat), sec, incl_opt: false, prep: 0, tag: format!("sec={} opt=none n={} ptr=1 soa_chain={:?}", sec_name(sec), n, strat) });
+        }
+    }
     // packets beyond 16 KiB: a record that starts below offset 0x4000 and ends above it, or starts exactly at
     // 0x3fff / 0x4000, followed by records whose owners are compressed against its owner
     for tstart in [16360usize, 0x3fff, 0x4000] {
